@@ -173,3 +173,50 @@ Fixpoint get_path_from (defs : table obj) (cur : obj) (p : path) : res oref :=
       end
   end.
 Definition get_path (root : obj) (p : path) : res oref := get_path_from (collect_defs root) root p.
+
+(* ---- default_enter / default_exit / default_visit as data ----------------------
+   The three default callbacks are if-chains over isinstance tests.  Their
+   decision structure is what the loop above relies on; it is stated here as
+   functions over Python types, and Gen/C08_Src.v (regenerated from the source on
+   every run) is proved equal to them in Proofs/C08_Source.v. *)
+Inductive pyty := TyList | TyTuple | TyDict | TySet | TyFrozen | TyStr | TyBytes | TyOther.
+Inductive abc := AStr | ABytes | AMapping | ASequence | ASet.
+Inductive meth := MExtend | MUpdate.
+Inductive iter_kind := ItItems | ItEnumerate.            (* ItemsView(value) | enumerate(value) *)
+
+(* enter: (value, False)  |  (value.__class__(), iterator) *)
+Inductive enter_res := NoTraverse | Traverse (it : iter_kind).
+(* exit: new_parent.update(new_items) | try new_parent.m(vals) except AttributeError:
+   new_parent.__class__(vals) | raise RuntimeError *)
+Inductive exit_res := ExUpdateItems | ExTryMethod (m : meth) | ExRaise.
+Inductive build_mode := BDictUpdate | BInPlace (m : meth) | BCtor.
+
+Definition ty_of_kind (k : kind) : pyty :=
+  match k with KList => TyList | KTuple => TyTuple | KDict => TyDict | KSet => TySet | KFrozen => TyFrozen end.
+
+(* what the machine assumes about enter: containers of the five kinds are
+   traversed (dict by items, the others by enumerate), str/bytes/anything else not *)
+Definition model_enter (t : pyty) : enter_res :=
+  match t with
+  | TyDict => Traverse ItItems
+  | TyList | TyTuple | TySet | TyFrozen => Traverse ItEnumerate
+  | TyStr | TyBytes | TyOther => NoTraverse
+  end.
+
+(* what [build] / [impl_blank] assume about exit, per kind *)
+Definition model_exit (k : kind) : build_mode :=
+  match k with
+  | KList => BInPlace MExtend
+  | KSet => BInPlace MUpdate
+  | KDict => BDictUpdate
+  | KTuple | KFrozen => BCtor
+  end.
+Definition in_place (b : build_mode) : bool := match b with BCtor => false | _ => true end.
+
+(* an exit decision resolved against the attributes the type has *)
+Definition resolve_exit (hasattr : pyty -> meth -> bool) (t : pyty) (r : exit_res) : option build_mode :=
+  match r with
+  | ExUpdateItems => Some BDictUpdate
+  | ExTryMethod m => Some (if hasattr t m then BInPlace m else BCtor)
+  | ExRaise => None
+  end.
